@@ -27,7 +27,8 @@ def Closed (Γ : SEnv) (e : Entry) : Prop :=
   (∀ l ∈ e.param, l ∈ e.self) ∧
   (∀ p m, Loan.borrow p m ∈ e.self →
     ∃ ep ∈ Γ.ents, ep.var = p ∧ ep.valid = true ∧ ep.kind ≠ .val ∧ ∀ l ∈ ep.self, l ∈ e.self) ∧
-  e.self.on e.var = false
+  e.self.on e.var = false ∧
+  (∀ p m, Loan.borrow p m ∈ e.param → ∀ ep ∈ Γ.ents, ep.var = p → ∀ l ∈ ep.self, l ∈ e.param)
 
 def Typed (σ : DState) (e : Entry) (r : Rt) : Prop :=
   r.kind = e.kind ∧
@@ -125,7 +126,11 @@ theorem mem_killEnts_of_survivor {p : Loan → Bool} {es : List Entry} {e : Entr
 
 theorem closed_kill {Γ : SEnv} {p : Loan → Bool} {e : Entry} (hc : Closed Γ e) (hp : e.self.any p = false) :
     Closed { Γ with ents := killEnts p Γ.ents } e := by
-  refine ⟨hc.1, ?_, hc.2.2⟩
+  refine ⟨hc.1, ?_, hc.2.2.1, ?_⟩
+  rotate_left
+  · intro q m hq ep hep hvar l hl
+    rcases mem_killEnts hep with ⟨ep0, hep0, rfl⟩
+    exact hc.2.2.2 q m hq ep0 hep0 (by simpa using hvar) l (by simpa using hl)
   intro q m hq
   rcases hc.2.1 q m hq with ⟨ep, hep, hvar, hval, hkv, hsub⟩
   have hpe : ep.self.any p = false := by
@@ -190,7 +195,7 @@ theorem Inv.filterOut {Γ : SEnv} {σ : DState} (inv : Inv Γ σ) (v : Var)
   · intro e he hv; exact inv.typed e (sub e he) hv
   · intro e he hv
     have hc := inv.closed e (sub e he) hv
-    refine ⟨hc.1, ?_, hc.2.2⟩
+    refine ⟨hc.1, ?_, hc.2.2.1, fun q m hq ep hep => hc.2.2.2 q m hq ep (sub ep hep)⟩
     intro q m hq
     rcases hc.2.1 q m hq with ⟨ep, hep, hvar, hval, hkv, hsub⟩
     refine ⟨ep, List.mem_filter.2 ⟨hep, ?_⟩, hvar, hval, hkv, hsub⟩
@@ -304,7 +309,8 @@ theorem Inv.add {Γ : SEnv} {σ : DState} (inv : Inv Γ σ) (ne : Entry) (r : Rt
     (hT : Typed σ ne r)
     (hC : (∀ l ∈ ne.param, l ∈ ne.self) ∧
           (∀ p m, Loan.borrow p m ∈ ne.self →
-            ∃ ep ∈ Γ.ents, ep.var = p ∧ ep.valid = true ∧ ep.kind ≠ .val ∧ ∀ l ∈ ep.self, l ∈ ne.self))
+            ∃ ep ∈ Γ.ents, ep.var = p ∧ ep.valid = true ∧ ep.kind ≠ .val ∧ ∀ l ∈ ep.self, l ∈ ne.self) ∧
+          (∀ p m, Loan.borrow p m ∈ ne.param → ∀ ep ∈ Γ.ents, ep.var = p → ∀ l ∈ ep.self, l ∈ ne.param))
     (hV : ne.kind = .val → ∀ ex, r.epoch = some ex → ex ∈ σ.epochs r.arena ∧
           ∀ g ∈ Γ.ents, g.valid = true → ∀ rg, σ.get g.var = some rg → Ender σ g rg r.arena ex → ne.self.on g.var = true)
     (hA : ∀ e ∈ Γ.ents, e.valid = true → e.kind = .val → ∀ re, σ.get e.var = some re → ∀ ex, re.epoch = some ex →
@@ -344,25 +350,41 @@ theorem Inv.add {Γ : SEnv} {σ : DState} (inv : Inv Γ σ) (ne : Entry) (r : Rt
       exact ⟨r0, by rw [hget e he]; exact hr0, ht⟩
   · intro e he hv
     rcases List.mem_cons.1 he with rfl | he
-    · refine ⟨hC.1, ?_, ?_⟩
-      · intro q m hq
-        rcases hC.2 q m hq with ⟨ep, hep, h1, h2, h3⟩
-        exact ⟨ep, List.mem_cons_of_mem _ hep, h1, h2, h3⟩
-      · -- every loan of the new entry is on an existing variable
+    · have hselfFree : e.self.on e.var = false := by
+        -- every loan of the new entry is on an existing variable
         apply Bool.eq_false_iff.2
         intro hon
         rcases List.any_eq_true.1 hon with ⟨l, hl, hlo⟩
         cases l with
         | frame k => simp [Loan.on] at hlo
         | borrow q m =>
-          rcases hC.2 q m hl with ⟨ep, hep, h1, _⟩
+          rcases hC.2.1 q m hl with ⟨ep, hep, h1, _⟩
           have : q = e.var := by simpa [Loan.on] using hlo
           exact hne ep hep (h1.trans this)
+      refine ⟨hC.1, ?_, hselfFree, ?_⟩
+      · intro q m hq
+        rcases hC.2.1 q m hq with ⟨ep, hep, h1, h2, h3⟩
+        exact ⟨ep, List.mem_cons_of_mem _ hep, h1, h2, h3⟩
+      · intro q m hq ep hep hvar
+        rcases List.mem_cons.1 hep with rfl | hep'
+        · -- the new entry does not borrow from itself
+          exfalso
+          have : ep.self.on ep.var = true :=
+            List.any_eq_true.2 ⟨_, hC.1 _ hq, by simp [Loan.on, hvar]⟩
+          rw [hselfFree] at this; exact Bool.false_ne_true this
+        · exact hC.2.2 q m hq ep hep' hvar
     · have hc := inv.closed e he hv
-      refine ⟨hc.1, ?_, hc.2.2⟩
-      intro q m hq
-      rcases hc.2.1 q m hq with ⟨ep, hep, h1, h2, h3⟩
-      exact ⟨ep, List.mem_cons_of_mem _ hep, h1, h2, h3⟩
+      refine ⟨hc.1, ?_, hc.2.2.1, ?_⟩
+      · intro q m hq
+        rcases hc.2.1 q m hq with ⟨ep, hep, h1, h2, h3⟩
+        exact ⟨ep, List.mem_cons_of_mem _ hep, h1, h2, h3⟩
+      · intro q m hq ep hep hvar
+        rcases List.mem_cons.1 hep with rfl | hep'
+        · -- an old entry does not borrow from the new variable
+          exfalso
+          rcases hc.2.1 q m (hc.1 _ hq) with ⟨ep0, hep0, h1, _⟩
+          exact hne ep0 hep0 (h1.trans hvar.symm)
+        · exact hc.2.2.2 q m hq ep hep' hvar
   · intro e he hv hk r0 hr0 ex hex
     rcases List.mem_cons.1 he with rfl | he'
     · rw [DState.get_set_self] at hr0
